@@ -136,9 +136,11 @@ def muxLevel (rw b : Nat) : List Nat → List Nat
 
 /-- `Mux(sel, ins, r)` bitwise.py:820-884; `sw = sel.getWidth()`.  `sw==1`: one Mux2 on `ins[0], ins[1]`;
     otherwise the select bits (BitsLSBF) drive one tree level each, LSB first; all intermediate wires have width `rw`.
-    (`sw==0` with one input builds nothing: `r` is never driven and reads 0.) -/
+    `sw==0` with one input is accepted and builds nothing (no select bit, no tree level): `r` is never driven and reads 0,
+    it is NOT connected to `ins[0]`. -/
 def mux (rw sw sel : Nat) (ins : List Nat) : Nat :=
   if sw = 1 then Leaf.mux2 rw sel (ins.getD 0 0) (ins.getD 1 0)
+  else if sw = 0 then 0
   else ((bitsLSBF sw sel).foldl (fun auxin b => muxLevel rw b auxin) ins).headD 0
 /-- `int(math.log2(n))` for `n ≥ 1` -/
 def ilog2 (n : Nat) : Nat := Nat.log2 n
